@@ -7,7 +7,7 @@ concrete arguments and the model state, never from the generator's intention.
 """
 from detsim.core import HistoryWorld, Violation, StopRun
 from refmodel import tlb, hashmap
-from refmodel.rcell import RCell, RCellError
+from refmodel.rcell import RCell, RCellError, bytes_to_bits
 from .common import (call, to01, tvm_bits, lib_cell_from_rcell, rcell_from_lib, struct_diff, addr_tuple,
                      Cell, Builder, Slice, Address, ExternalAddress, bitarray)
 
@@ -382,7 +382,8 @@ class BuildWorld(HistoryWorld):
                 'carve-outs: zero-width integers, zero-length addr_extern, partial writes left by a refused composite store, peeks past the end, addr_var']
 
     def make_config(self, rng, leg, run_index):
-        return {'steps': rng.choice([20, 40, 60, 80]), 'deep': (run_index % 50 == 7), 'dict_every': rng.choice([0, 3])}
+        return {'steps': rng.choice([20, 40, 60, 80]), 'deep': (run_index % 50 == 7), 'dict_every': rng.choice([0, 3]),
+                'pruned_deep': (run_index % 25 == 13)}
 
     def new_state(self, ctx):
         st = St()
@@ -601,6 +602,23 @@ class BuildWorld(HistoryWorld):
             q.append({'op': 'new_builder'})
             q.append({'op': 'store', 'b': len(st.builders), 't': 'ref', 'c': len(st.cells)})
             q.append({'op': 'end_cell', 'b': len(st.builders)})
+            return
+        if st.cfg.get('pruned_deep') and not getattr(st, 'pruned_done', False):
+            # a pruned branch records the depth of the subtree it stands for: the limit applies to that depth as well
+            st.pruned_done = True
+            d = rng.choice([400, 1000, 1021, 1022, 1022, 1023, 1023])
+            q.append({'op': 'aux_pruned', 'd': d, 'h': '%064x' % rng.getrandbits(256)})
+            base = len(st.cells)
+            if d < 1021:
+                q.append({'op': 'deep_chain', 'n': 1023 - d + rng.choice([-1, 0, 1, 5]), 'base': base})
+            nb = len(st.builders)
+            for lvl in range(rng.choice([1, 2, 3])):
+                q.append({'op': 'new_builder'})
+                if rng.random() < 0.5:
+                    q.append({'op': 'store', 'b': nb, 't': 'ref', 'c': rng.randrange(max(1, base))})   # a shallow sibling first
+                q.append({'op': 'store', 'b': nb, 't': 'ref', 'c': len(st.cells) + (1 if d < 1021 else 0) + lvl if lvl or d < 1021 else base})
+                q.append({'op': 'end_cell', 'b': nb})
+                nb += 1
             return
         r = rng.random()
         bi = len(st.builders) - 1 if rng.random() < 0.8 else rng.randrange(len(st.builders))
@@ -835,10 +853,25 @@ class BuildWorld(HistoryWorld):
             st.slices.append({'lib': s, 'bits': twin.bits, 'refs': [st.by_id[id(e['lib'])] for e in refs], 'plain': True})
             ctx.probe('slice-of-plain-bitarray-cell')
 
+    def op_aux_pruned(self, st, op, ctx):
+        """A level-1 pruned branch standing for a subtree of depth d (built through the builder's exotic route)."""
+        data = bytes([1, 1]) + bytes.fromhex(op['h']) + (op['d'] % 65536).to_bytes(2, 'big')
+        twin = RCell(bytes_to_bits(data), (), True)
+        ok, c = call(lambda: Builder(type_=1).store_bytes(data).end_cell())
+        if not ok:
+            ok, c = call(Cell, tvm_bits(twin.bits), [], 1)
+        if not ok:
+            return
+        ctx.probe('pruned-branch-recording-depth-%s' % ('1023' if op['d'] == 1023 else '1021-1022' if op['d'] >= 1021 else 'small'))
+        st.add_cell(c, twin)
+
     def op_deep_chain(self, st, op, ctx):
         n = op['n']
         cur_l = Builder().store_uint(1, 1).end_cell()
         cur_m = RCell('1')
+        if op.get('base') is not None and st.cells:
+            e = st.cells[op['base'] % len(st.cells)]
+            cur_l, cur_m = e['lib'], e['twin']
         for i in range(1, n + 1):
             b = Builder().store_ref(cur_l)
             ok, c = call(b.end_cell)
